@@ -33,13 +33,14 @@ CAT = [
     ("entry", "e", "k5", [("p", "v"), ("q", "{v}"), ("r", "s"), ("w", "e"), ("z", "n")]),
     ("string", "e", ""),  # no content at all (accepted by the splitter as an @string block): resolves to the empty text
     ("string", "n", '""'),  # empty content in quotes
+    ("garbage", "@string{oops"),  # a definition that breaks off (a failed block): what follows is defined and resolved as ever
 ]
 
 
 def text_of(c):
     if c[0] == "string":
         return f"@string{{{c[1]} = {c[2]}}}"
-    if c[0] == "comment":
+    if c[0] in ("comment", "garbage"):
         return c[1]
     if c[0] == "entry-ml":
         return f"@{c[1]}{{{c[2]},\n" + ",\n".join(f"  {k} = {v}" for k, v in c[3]) + "\n}"
